@@ -308,13 +308,20 @@ class PermTransform(Contract):
 @contract(F + "::PermutationReciprocalTransformer.fit", "C13")
 class PermFit(Contract):
     """bounded in the length of y (<= 3), complete in the label values (ties included)"""
-    variants = [(L, seeded) for L in (1, 2, 3) for seeded in (False, True)]
+    variants = [(L, seeded, refit) for L in (1, 2, 3) for seeded in (False, True) for refit in (False, True)]
     max_paths = 20000
 
     def setup(self, E, v):
-        L, seeded = v
+        L, seeded, refit = v
         o = E.new_obj(F + "::PermutationReciprocalTransformer", dict(random_state=E.int("seed") if seeded else None, closest=False))
-        return dict(self=o, X=None, y=E.nd("y", (L,), "int"), _L=L)
+        if refit:
+            # the instance was fitted and USED before: whatever the real methods cache on it is there when fit runs again
+            olds = _labels(E, 2)
+            o.fields["permutation_"] = {}
+            for l, p in zip(olds, (1, 0)):
+                E.setitem(o.fields["permutation_"], l, p)
+            E.call_method(o, "get_fct_inv", [], {}, None)
+        return dict(self=o, X=None, y=E.nd("y", (L,), "int"), _L=L, _refit=refit)
 
     def ensures(self, E, a, res, old):
         s = a.self
@@ -330,6 +337,11 @@ class PermFit(Contract):
             *([z3.Distinct(*[z(k) for k in ks])] if m > 1 else []),
             *[z3.Or(*[a.y.get(i) == z(k) for k in ks]) for i in range(a._L)])
         out["bijection_onto_0_m"] = z3.And(*[z3.And(v >= 0, v < m) for v in vals], *([z3.Distinct(*vals)] if m > 1 else []))
+        # what the instance answers after this fit depends on this fit only (no state of an earlier fit / earlier use survives)
+        inv = E.call_method(s, "get_fct_inv", [], {}, None)
+        ok = isinstance(inv, Obj) and isinstance(inv.fields.get("permutation_"), dict)
+        out["the_inverse_asked_for_after_fit_inverts_this_fit"] = z3.BoolVal(ok) if not ok else z3.And(
+            z3.BoolVal(len(inv.fields["permutation_"]) == m), *[z(E.getitem(inv.fields["permutation_"], d[k0])) == z(dicts.kterm(k0)) for k0 in d.keys()])
         return out
 
 
